@@ -1048,6 +1048,8 @@ func (x *aeadWorker) rep(r int) string {
 type cronWorker struct {
 	prefix  string
 	verbose bool
+	sink    *keepSink
+	keepLg  cron.Logger
 	w       wspec
 	parser  *cron.Parser
 	buf     bytes.Buffer
@@ -1073,13 +1075,33 @@ func newCronWorker(w wspec, idx int, env *phaseEnv) *cronWorker {
 	}
 	c.prefix = fmt.Sprintf("w%d: ", idx)
 	l := log.New(&c.buf, c.prefix, 0)
+	// a second logger of the worker writes to a sink of the harness's own that KEEPS what Printf was handed (format
+	// and arguments) and renders it only later - a buffered or asynchronous sink: what it was handed must still say
+	// the same then, whatever other loggers have logged meanwhile
+	c.sink = &keepSink{}
 	if w.Seed%2 == 0 {
 		c.verbose = true
 		c.lg = cron.VerbosePrintfLogger(l)
+		c.keepLg = cron.VerbosePrintfLogger(c.sink)
 	} else {
 		c.lg = cron.PrintfLogger(l)
+		c.keepLg = cron.PrintfLogger(c.sink)
 	}
 	return c
+}
+
+// keepSink records Printf calls without rendering them.
+type keepSink struct {
+	recs []keptRec
+}
+
+type keptRec struct {
+	format string
+	args   []interface{}
+}
+
+func (k *keepSink) Printf(format string, v ...interface{}) {
+	k.recs = append(k.recs, keptRec{format, v})
 }
 
 func (c *cronWorker) begin() {}
@@ -1141,6 +1163,31 @@ func (c *cronWorker) rep(r int) string {
 		if got := c.buf.String(); got != want {
 			res += fmt.Sprintf(" BROKEN: Info(%q, %v) through this worker's own logger wrote %q, the format documented for a call with %d key/value arguments gives %q", msg, kv, got, len(kv), want)
 		}
+	}
+	// the keeping sink: several Error calls (logged by both logger kinds), rendered only now
+	c.sink.recs = c.sink.recs[:0]
+	var wantLines []string
+	for k := 0; k < 3; k++ {
+		e := fmt.Errorf("err-%d-%d", r, k)
+		msg := fmt.Sprintf("kept%d", k)
+		kv := [][]interface{}{{"rep", r}, {"a", k, "b", "x"}, nil}[k]
+		c.keepLg.Error(e, msg, kv...)
+		yield(c.w.Yield)
+		f := "%s, %v=%v"
+		for range kv[:len(kv)/2*2][:len(kv)/2] {
+			f += ", %v=%v"
+		}
+		wantLines = append(wantLines, fmt.Sprintf(f, append([]interface{}{msg, "error", e}, kv...)...))
+	}
+	for k, rec := range c.sink.recs {
+		if k < len(wantLines) {
+			if got := fmt.Sprintf(rec.format, rec.args...); got != wantLines[k] {
+				res += fmt.Sprintf(" BROKEN: record %d kept by this worker's own sink renders as %q when it is written out after the repetition, the call was Error(%q ...) = %q", k, got, "kept"+fmt.Sprint(k), wantLines[k])
+			}
+		}
+	}
+	if len(c.sink.recs) != len(wantLines) {
+		res += fmt.Sprintf(" BROKEN: %d Error calls, %d records in the sink", len(wantLines), len(c.sink.recs))
 	}
 	return res
 }
